@@ -28,7 +28,7 @@ META = {
 SIGS = [
     "new-files/not-argmax", "new-files/safe-filter",
     "upload-skipped/trailing-newline", "upload-skipped/line-terminator", "upload-skipped/absent-vs-empty",
-    "upload-skipped/other", "upload-unexpected", "upload-bytes-differ",
+    "upload-skipped/other", "upload-skipped/equal-content", "upload-unexpected", "upload-bytes-differ",
     "reload/missing-when-enabled", "reload/wrong-command", "reload/attached-when-disabled",
     "diff-empty/trailing-newline", "diff-empty/line-terminator", "diff-empty/absent-vs-empty",
     "diff-empty/other", "diff-shown-for-equal", "foreign-path",
@@ -37,6 +37,7 @@ WHAT = {
     "new-files/not-argmax": "new_files() is not the output/reload of the highest-priority generator per path",
     "new-files/safe-filter": "new_files(safe=True) is not exactly the safe winners",
     "upload-skipped/other": "file not scheduled for upload although its line content differs",
+    "upload-skipped/equal-content": "file not scheduled for upload although reload is forced (entire_reload=force)",
     "upload-unexpected": "file scheduled for upload although content is equal and reload is not forced",
     "upload-bytes-differ": "uploaded bytes are not the generated content",
     "reload/missing-when-enabled": "uploaded file has no reload command although reloads are enabled",
@@ -287,24 +288,34 @@ def run(ctx):
                 signature=f"C19/{s}", what=what_of(s),
                 replay={"case": payload(cases[i]), "impl": outs[i], "violated": sigs.get(i, [])}))
 
-    # --- correspondence: the implementation must behave as one of the two modelled differ variants
+    # --- correspondence: inside the guard of the property the implementation must behave as one of the
+    # two modelled differ variants.  Outside the guard (equal priorities for one path) nothing is claimed
+    # by C19, so agreement there is recorded but does not decide the verdict (a changed tie-break is not
+    # a violation of this property).
+    outside = set(res["outside_guard"])
+    dis_lines = [i for i in res["agree_lines"] if i not in outside]
+    dis_exact = [i for i in res["agree_exact"] if i not in outside]
     variant = None
-    if not res["agree_lines"]:
+    if not dis_lines:
         variant = "differ_lines (UnifiedFileDiffer compares splitlines() only: shipped code)"
-    elif not res["agree_exact"]:
+    elif not dis_exact:
         variant = "differ_exact (UnifiedFileDiffer reports content differences hidden by splitlines(): repaired code)"
     else:
-        bad = min((res["agree_lines"], res["agree_exact"]), key=len)
+        bad = min((dis_lines, dis_exact), key=len)
         i = bad[0]
         ctx.add_violation(core.Violation(
             signature="C19/model-impl-disagree",
             what="Coq model (Model.Files.model, either differ variant) and the implementation differ "
-                 f"({len(res['agree_lines'])} cases vs differ_lines, {len(res['agree_exact'])} vs differ_exact); "
+                 f"({len(dis_lines)} cases vs differ_lines, {len(dis_exact)} vs differ_exact); "
                  "correspondence broken and no property violation found among the explored cases",
             replay={"correspondence": "Model.Files.model vs run_file_generators().new_files / "
                                       "PCDeployerJob.parse_result / pc_diff",
                     "case": payload(cases[i]), "impl": outs[i]}, no_input=True))
     ctx.notes.append(f"differ variant matched by the implementation: {variant}")
+    tie_dis = min(len([i for i in res["agree_lines"] if i in outside]),
+                  len([i for i in res["agree_exact"] if i in outside]))
+    ctx.notes.append(f"outside the guard (equal priorities): model and implementation agree on "
+                     f"{len(outside) - tie_dis} of {len(outside)} cases (first listed wins); informational")
 
     # --- coverage
     seen = set()
@@ -332,7 +343,7 @@ def run(ctx):
                 "and some are not",
         "samples": [{"input": payload(c), "impl": o} for c, o in list(zip(cases, outs))[:3]],
         "traces_validated_against_impl": len(cases),
-        "disagreements_checked": min(len(res["agree_lines"]), len(res["agree_exact"])),
+        "disagreements_checked": min(len(dis_lines), len(dis_exact)),
         "outcome_histogram": hist,
         "differ_variant": variant,
         "cases_outside_guard_wf_C19": len(res["outside_guard"]),
